@@ -702,6 +702,13 @@ class _Exec:
             self.run.probes['op_skipped'] += 1
             return
         at = max(0, min(int(op.get('at', 0)), self.logical - 1))
+        if self.cps:
+            # a check-pointed chunk is immutable by design (no reorganisation below a checkpoint):
+            # own headers are only mined above it
+            if self.logical < 1000:
+                self.run.probes['op_skipped'] += 1
+                return
+            at = min(at, self.logical - 1000)
         start = self.logical - at
         n = max(1, int(op.get('n', 1)))
         hdrs, label = self.build_batch(self.image, start, n, op.get('deltas') or [150], op.get('seed', 0),
